@@ -54,15 +54,17 @@ def reg_pass(seed, count, label, lines_fn=None):
             try:
                 sx = vcheck.sx_parse(l)
                 files = sx[2][1:]
-                names, specs, has_broken = [], [], []
+                names, specs, has_broken, has_edited = [], [], [], {}
                 for f in files:
                     name = f[1][1]
                     vs = [v for v in f[2:] if v[1][1] != "@@ABSENT@@"]
                     if not vs: continue
                     names.append(name)
                     broken = [v for v in vs if v[2] == "broken"]
-                    specs.append(["file", f[1], ["var", ("s", "@@ABSENT@@"), ["src"]], vs[0]] + broken[:1])
+                    edited = [v for v in vs[1:2] if v[2] != "broken"]
+                    specs.append(["file", f[1], ["var", ("s", "@@ABSENT@@"), ["src"]], vs[0]] + broken[:1] + edited[:1])
                     if broken: has_broken.append(name)
+                    if edited: has_edited[name] = 2 + len(broken[:1])
                 order = names[:]; rnd.shuffle(order)
                 ops = []
                 # files other files re-export from: while one of them is missing beff falls through to an `export *` that also
@@ -90,6 +92,12 @@ def reg_pass(seed, count, label, lines_fn=None):
                 if has_broken and rnd.random() < 0.5:
                     n = rnd.choice(has_broken)
                     ops += [["u", ("s", n), "2"], ["r"], ["u", ("s", n), "1"], ["r"]]
+                # a registered file is saved with OTHER valid content (a declaration or an export changed), the project is rebuilt —
+                # whoever reaches its names through an `export *` barrel that was not saved again must see the new ones — and back
+                if has_edited and rnd.random() < 0.7:
+                    n = rnd.choice(sorted(has_edited))
+                    ops += [["u", ("s", n), str(has_edited[n])], ["r"]]
+                    if rnd.random() < 0.5: ops += [["u", ("s", n), "1"], ["r"]]
                 out.append(vcheck.sx_show(["watch", sx[1], ["files"] + specs, ["ops"] + ops]))
             except Exception:
                 continue
